@@ -37,6 +37,10 @@ var verifC16Queries = []verifC16Query{
 	{text: "SELECT value FROM mydb.myrp.cpu WHERE value > 1 OR value < -1", groupBy: []interface{}{&ast.StarNode{}}, wantDim: "*"},
 	{text: "SELECT mean(value) FROM mydb.myrp.cpu WHERE host = 'a'", groupBy: []interface{}{"dc", "host"}, fill: "previous", wantDim: "dc, host"},
 	{text: "SELECT mean(value) FROM mydb.myrp.cpu WHERE host = 'a'", groupBy: []interface{}{3 * time.Second}, alignGroup: true, interval: 3 * time.Second},
+	// groupBy(time(3s, 1s)): the user's own offset is kept without alignGroup; with alignGroup
+	// the offset follows the query start, the same on the live query and on its clones
+	{text: "SELECT mean(value) FROM mydb.myrp.cpu WHERE host = 'a'", groupBy: []interface{}{TimeDimension{Length: 3 * time.Second, Offset: time.Second}, "dc"}, wantDim: "time(3s, 1s), dc"},
+	{text: "SELECT mean(value) FROM mydb.myrp.cpu WHERE host = 'a'", groupBy: []interface{}{TimeDimension{Length: 3 * time.Second, Offset: time.Second}}, alignGroup: true, interval: 3 * time.Second},
 }
 
 type verifC16Row struct {
